@@ -98,10 +98,19 @@ def make_facts(ctx):
 
     def run():
         f = irsym.module_facts(texts)
-        return f['writable_globals'], sorted(irsym.reachable(f['callgraph'], ['c_anneal_quso', 'c_anneal_puso']) & set(f['declared']))
+        return f['writable_globals'], sorted(irsym.reachable(f['callgraph'], ['c_anneal_quso', 'c_anneal_puso']) & set(f['declared'])), f['callgraph']
 
     def check(res):
-        wg, ext = res
+        wg, ext, cg = res
+        import re as _re
+        # stack use must not grow with the input: the bounded runs (N <= 4) cannot see a stack overflow that needs 10^6 spins
+        vla = []
+        for t in texts:
+            for line in t.splitlines():
+                if _re.search(r'=\s*alloca\s+[^,]+,\s*i(32|64)\s+%', line):
+                    vla.append(line.strip()[:100])
+        defined = set(cg)
+        rec = sorted(fn for fn in defined if fn in irsym.reachable(cg, [c for c in cg.get(fn, ()) if c in defined]))
         # the module definition tables of _canneal.c are written only by CPython at import; the C code under test never stores to a global
         stores_to_globals = []
         for t in texts:
@@ -109,6 +118,8 @@ def make_facts(ctx):
                 if line.strip().startswith('store ') and ' @' in line.split(',')[1]:
                     stores_to_globals.append(line.strip()[:100])
         return [Ob('no instruction of the extension stores to a global (calls cannot affect later calls through C state)', not stores_to_globals, info={'stores': stores_to_globals[:3]}),
+                Ob('no variable-length stack allocation in the extension (stack use independent of the input size)', not vla, info={'alloca': vla[:3]}),
+                Ob('no recursion among the extension\'s functions (stack depth independent of the input)', not rec, info={'recursive': rec[:5]}),
                 Ob('writable globals are only the CPython module tables / docstrings', all(('Module' in g or 'Methods' in g or 'docstring' in g or '_name' in g) for g in wg), info={'globals': wg})]
     return run, check
 
